@@ -39,7 +39,7 @@ ADV = [49, 50, 115, 108, 100, 105, 45]        # 1 2 s l d i -
 
 
 def mc_cfg(mode="values", alpha=ADV, maxstr=1, ints=(0, 1, 2, 12), items=2, depth=1, variant="faithful", maxsrc=1):
-    invs = {"values": ["RoundTrip", "DictOrder"], "keys": ["KeyRoundTrip"], "dump": []}[mode]
+    invs = {"values": ["RoundTrip", "DictOrder"], "keys": ["KeyRoundTrip"], "dump": [], "bytes": ["BytesRoundTrip"]}[mode]
     return MC_CFG % dict(variant=variant, alpha=", ".join(map(str, alpha)), maxstr=maxstr,
                          ints=", ".join(map(str, ints)), items=items, depth=depth, mode=mode, maxsrc=maxsrc,
                          invs="\n".join("INVARIANT " + i for i in invs))
@@ -198,8 +198,37 @@ def rand_case(rng):
             continue
         seen.add(fam(s)); keep.append(s)
     return {"cdefs": keep, "include": inc, "include_at": rng.randint(0, len(keep)),
-            "preamble": rng.choice(["", "#include <math.h>\n", "/* x */", "0d", "1s", rand_str(rng, 12)]),
+            "preamble": rng.choice(["", "#include <math.h>\n", "/* x */", "0d", "1s", rand_str(rng, 12),
+                                    'char s[] = "\u00e9";', "/* \u20ac \U0001f600 */", "// caf\u00e9 \u4e2d\n"]),
             "kwds": kw, "tag": rng.choice(["", "", "t1"]), "generic": rng.random() < 0.3}
+
+
+def spell_out(s):
+    """every non-ASCII character replaced by the escape sequence Python's 'backslashreplace' would write"""
+    return s.encode("ascii", "backslashreplace").decode("ascii")
+
+
+def spell_value(x):
+    if isinstance(x, str):
+        return spell_out(x)
+    if isinstance(x, (list, tuple)):
+        return type(x)(spell_value(i) for i in x)
+    if isinstance(x, dict):
+        return {spell_out(k): spell_value(v) for k, v in x.items()}
+    return x
+
+
+def twin(rng, c):
+    """the adversarial partner of a case: non-ASCII characters spelled out as escape sequences (a different input)"""
+    c = c_fromjson(json.loads(json.dumps(c_jsonable(c))))
+    c["preamble"] = spell_out(c["preamble"])
+    c["cdefs"] = [spell_out(s) for s in c["cdefs"]]
+    c["kwds"] = {k: spell_value(v) for k, v in c["kwds"].items()}
+    return c
+
+
+def has_nonascii(c):
+    return any(ord(ch) > 127 for ch in json.dumps(c_jsonable(c), ensure_ascii=False))
 
 
 def mutate(rng, c):
@@ -250,8 +279,8 @@ def expected_sources(c):
     return out
 
 
-def name_from_key(key, tag, class_key):
-    kb = key.encode("utf-8")
+def name_from_key(kb, tag, class_key):
+    """kb: the bytes of the specified key (TLC's KeyBytes)"""
     k1 = hex(binascii.crc32(kb[0::2]) & 0xffffffff).lstrip("0x").rstrip("L")
     k2 = hex(binascii.crc32(kb[1::2]) & 0xffffffff).lstrip("0").rstrip("L")
     return "_cffi_%s_%s%s%s" % (tag, class_key, k1, k2), (binascii.crc32(kb[0::2]), binascii.crc32(kb[1::2]))
@@ -293,8 +322,13 @@ def run(ctx):
                                                 env=light({"FLATTEN_OUT": dump_path}), timeout=3000)),
             ("domain:NUL in preamble", "nul", pool.submit(core.tlc, "MC_Flatten",
                                                           cfg_text=mc_cfg("keys", alpha=[48, 100, 0], maxsrc=2), workers=1, env=light()))]
+    BYTES_ALPHA = [233, 8364, 92, 120, 101, 57]            # e-acute, euro sign, backslash, x, e, 9
+    futs.append(("MC_Flatten(bytes)", "mc", pool.submit(tlc_light, "MC_Flatten", cfg_text=mc_cfg(
+        "bytes", alpha=BYTES_ALPHA if quick else BYTES_ALPHA + [128512, 117, 85, 48], maxstr=4), workers=2)))
     for v in ("nolen", "notag", "nosort"):
         futs.append(("sanity:" + v, "sanity", pool.submit(tlc_light, "MC_Flatten", cfg_text=mc_cfg(variant=v))))
+    futs.append(("sanity:backslashreplace", "sanity", pool.submit(tlc_light, "MC_Flatten", cfg_text=mc_cfg(
+        "bytes", alpha=BYTES_ALPHA, maxstr=4, variant="backslashreplace"))))
 
     # ---------------------------------------------------------------- code -> spec: random values
     rng = ctx.rng
@@ -318,10 +352,17 @@ def run(ctx):
     ncases = 50 if quick else 1000
     cases = []
     while len(cases) < ncases:
-        if cases and rng.random() < 0.5:
+        if cases and rng.random() < 0.4:
             cases.append(mutate(rng, rng.choice(cases)))
         else:
-            cases.append(rand_case(rng))
+            c = rand_case(rng)
+            if rng.random() < 0.4:                 # non-ASCII text in a cdef source (a comment) and in a keyword string
+                c["cdefs"] = c["cdefs"] + [rng.choice(["/* \u00e9 */ typedef int na1_t;", "typedef int na2_t; // \u20ac\n",
+                                                       "/* \U0001f600 */ typedef long na3_t;"])]
+                c["kwds"]["k_na"] = rng.choice(["\u00e9", ["\u4e2d", "x"], {"\u03bb": "\U0001f600"}, "a\u20acb"])
+            cases.append(c)
+        if has_nonascii(cases[-1]) and len(cases) < ncases:
+            cases.append(twin(rng, cases[-1]))     # character vs. its spelled-out escape sequence
     child = os.path.join(ctx.tmp, "name_child.py")
     with open(child, "w") as f:
         f.write(NAME_CHILD)
@@ -369,9 +410,8 @@ def run(ctx):
     div = ctx.cov.setdefault("model_divergences", [])
     byname = {}
     for ci, c in enumerate(cases):
-        key = "".join(chr(x) for x in keys[len(recs) + ci])
         real = results[0]["names"][ci]
-        want, crcs = name_from_key(key, c["tag"], real["class_key"])
+        want, crcs = name_from_key(bytes(keys[len(recs) + ci]), c["tag"], real["class_key"])
         if want != real["name"]:
             div.append("case %d: real name %s, the specified key gives %s" % (ci, real["name"], want))
         ident = json.dumps([as_lists(c["kwds"]), c["preamble"], expected_sources(c), c["tag"], real["class_key"]],
